@@ -233,6 +233,30 @@ def compute_dmdelays(freqs, dm, tsamp, ref_freq, in_samples=True):
         delays = (delays / tsamp).round().astype(np.int32)
     return delays[0] if scalar_dm else delays
 ''',
+    # C14: the fast running filter is the exact one whenever no decimation happens (window < 2 * min_points), otherwise: block means
+    # by ds_factor, the exact filter of width min_points, linear interpolation back onto the input grid at the block centres.
+    "running_filter_fast": '''
+def running_filter_fast(array, window, method="mean", min_points=101):
+    ds_factor = int(max(1, window / min_points))
+    if ds_factor == 1:
+        return running_filter(array, window, method)
+    ds = downsample_1d(array, ds_factor, "mean")
+    filtered_ds = running_filter(ds, min_points, method)
+    x_ds = np.arange(ds.size) * ds_factor + 0.5 * (ds_factor - 1)
+    return np.interp(np.arange(array.size), x_ds, filtered_ds)
+''',
+    # C12: the inverse real FFT of the spectrum *as it is*, to the recorded transform length (a caller-supplied transform gets the
+    # spectrum only)
+    "ifft": '''
+def ifft(self, ifftn=None):
+    if ifftn is None:
+        tim_ar = kernels.nb_irfft(self.data, self.header.nsamples)
+    elif callable(ifftn):
+        tim_ar = ifftn(self.data)
+    else:
+        raise TypeError("not callable")
+    return timeseries.TimeSeries(tim_ar, self.header.new_header())
+''',
     "estimate_zscore": '''
 def estimate_zscore(data, loc_method="median", scale_method="mad", axis=0):
     data = np.asanyarray(data, dtype=np.float32)
